@@ -1,3 +1,19 @@
 import TornadoModel.C38.Spec
 namespace TornadoModel.C38
+
+/-- **run_sync_outcomes**: `run_sync` returns the function's result, re-raises its exception, or raises `TimeoutError`
+(after cancelling) exactly when the awaitable has not completed strictly before the timeout. -/
+theorem run_sync_outcomes (f : Func) (t : Option Nat) :
+    runSync f t = Spec.runSyncSpec f t := by
+  cases f with
+  | raises => cases t <;> simp [runSync, loopPhase, Spec.runSyncSpec, Spec.completion, Spec.immediate]
+  | retNone => cases t <;> simp [runSync, loopPhase, Spec.runSyncSpec, Spec.completion, Spec.immediate]
+  | retValue => cases t <;> simp [runSync, loopPhase, Spec.runSyncSpec, Spec.completion, Spec.immediate]
+  | awaitable dur ok =>
+    cases dur <;> cases t <;> simp [runSync, loopPhase, Spec.runSyncSpec, Spec.completion, Spec.immediate]
+    split <;> simp
+  | stopsLoop d =>
+    cases t <;> simp [runSync, loopPhase, Spec.runSyncSpec]
+    split <;> simp
+
 end TornadoModel.C38
